@@ -106,7 +106,7 @@ def cases(tier, seed):
     else:
         yield from forest_cases(1) + forest_cases(2) + forest_cases(3)
         exh = forest_cases(4) + alltrees_cases(3) + alltrees_cases(4) + alltrees_cases(5) + forest_cases(5)
-        yield from interleave((exh, 4), (rand_stream("walk", 4000000), 60), (rand_stream("wide", 200000), 6),
+        yield from interleave((exh, 6), (rand_stream("walk", 4000000), 200), (rand_stream("wide", 200000), 12),
                               (rand_stream("errors", 50000), 2), rand_stream("forest6", 200000),
                               rand_stream("alltrees67", 200000))
 
